@@ -187,6 +187,7 @@ func cloneMap(m map[string]any) map[string]any {
 // ---- valid base configurations
 
 type flatField struct {
+	owner reflect.Type // the struct type that declares the field
 	sf    reflect.StructField
 	key   string
 	def   reflect.Value
@@ -211,17 +212,33 @@ func flatFields(t reflect.Type, def reflect.Value) []flatField {
 			out = append(out, flatFields(f.Type, dv)...)
 			continue
 		}
-		out = append(out, flatField{sf: f, key: key, def: dv, names: []string{f.Name}})
+		out = append(out, flatField{owner: t, sf: f, key: key, def: dv, names: []string{f.Name}})
 	}
 	return out
 }
 
-func vtags(f reflect.StructField) []string {
-	vt := f.Tag.Get("validate")
-	if vt == "" {
-		return nil
+// vtags: the constraints of a field: the `validate` tag of the tree under test, plus whatever the snapshot docTags
+// lists for it and the tree no longer has
+func vtags(owner reflect.Type, f reflect.StructField) []string {
+	var out []string
+	if vt := f.Tag.Get("validate"); vt != "" {
+		out = strings.Split(vt, ",")
 	}
-	return strings.Split(vt, ",")
+	if owner != nil {
+		key := strings.TrimPrefix(owner.PkgPath(), "github.com/yandex/pandora/") + "." + owner.Name() + "." + f.Name
+		if doc, ok := docTags[key]; ok {
+			for _, d := range strings.Split(doc, ",") {
+				have := false
+				for _, o := range out {
+					have = have || o == d
+				}
+				if !have {
+					out = append(out, d)
+				}
+			}
+		}
+	}
+	return out
 }
 
 func stringFor(key string, tags []string) string {
@@ -265,7 +282,7 @@ func basePlugin(iface reflect.Type) any {
 func baseFor(t reflect.Type, def reflect.Value) map[string]any {
 	out := map[string]any{}
 	for _, f := range flatFields(t, def) {
-		tags := vtags(f.sf)
+		tags := vtags(f.owner, f.sf)
 		ft := f.sf.Type
 		for _, tag := range tags {
 			switch {
@@ -432,6 +449,16 @@ func (w *walker) walkStruct(path string, t reflect.Type, def reflect.Value, wrap
 		}
 	}
 
+	// a required option without default that is not given at all
+	for _, f := range fields {
+		if _, req := hasTag(vtags(f.owner, f.sf), "required"); req && f.def.IsValid() && f.def.IsZero() {
+			if _, inBase := base[f.key]; inBase {
+				m := cloneMap(base)
+				delete(m, f.key)
+				w.add(gcase{kind: "oor", path: path + "/" + f.key + "#required-absent", at: "-", exp: "reject", cfg: wrap(m)})
+			}
+		}
+	}
 	for _, f := range fields {
 		f := f
 		fpath := path + "/" + f.key
@@ -451,7 +478,7 @@ func (w *walker) walkStruct(path string, t reflect.Type, def reflect.Value, wrap
 
 func (w *walker) walkField(fpath string, f flatField, set func(any) any, at string, fvis []string, pdepth int) {
 	ft := f.sf.Type
-	tags := vtags(f.sf)
+	tags := vtags(f.owner, f.sf)
 	// explicit null: the default stays
 	if f.def.IsValid() && !f.def.IsZero() {
 		if kindName(ft) != "" && !isSpecial(ft) {
@@ -584,8 +611,8 @@ func (w *walker) scalarCases(fpath string, f flatField, fk string, tags []string
 		case strings.HasPrefix(t, "min-time="):
 			w.add(gcase{kind: "oor", path: fpath + "#" + t, at: "-", exp: "reject", cfg: set("100us")})
 			if d, err := time.ParseDuration(strings.TrimPrefix(t, "min-time=")); err == nil && d > time.Microsecond {
-				w.add(gcase{kind: "valid", path: fpath + "#" + t + "-bound", at: "-", exp: "accept", cfg: set(d.String())})
-				w.add(gcase{kind: "oor", path: fpath + "#" + t + "-below", at: "-", exp: "reject", cfg: set((d - 1).String())})
+				w.add(gcase{kind: "valid", path: fpath + "#" + t + "-bound", at: "-", exp: "accept", cfg: set(fmt.Sprintf("%dns", int64(d)))})
+				w.add(gcase{kind: "oor", path: fpath + "#" + t + "-below", at: "-", exp: "reject", cfg: set(fmt.Sprintf("%dns", int64(d-1)))})
 			}
 		case t == "endpoint":
 			w.add(gcase{kind: "oor", path: fpath + "#endpoint", at: "-", exp: "reject", cfg: set("no-port")})
@@ -674,7 +701,7 @@ func (w *walker) scalarCases(fpath string, f flatField, fk string, tags []string
 			w.add(gcase{kind: "ph-multi", path: fpath, at: at, fk: fk, exp: "value", want: tstr("[hello: 42-hello]"),
 				cfg: set("[${env:C17_STR}: ${C17_INT}-" + ph("property", "str") + "]"), uses: true})
 			w.add(gcase{kind: "ph-unset", path: fpath + "#second", at: "-", fk: fk, exp: "reject", cfg: set("${env:C17_STR}-${env:C17_UNSET}"), uses: true})
-			w.add(gcase{kind: "ph-empty", path: fpath, at: "-", fk: fk, exp: "none", cfg: set("x${env:C17_EMPTY}y"), uses: true})
+			w.add(gcase{kind: "ph-empty", path: fpath, at: at, fk: fk, exp: "value", want: tstr("xy"), cfg: set("x${env:C17_EMPTY}y"), uses: true})
 		}
 	case "uint":
 		// the confirmed defect: -1 into an unsigned field
@@ -717,8 +744,14 @@ func (w *walker) walkPlugin(fpath string, iface reflect.Type, set func(any) any,
 	case sinkIface:
 		w.add(gcase{kind: "plugin-short", path: fpath, at: "-", exp: "accept", cfg: set("stderr")})
 		w.add(gcase{kind: "plugin-short", path: fpath, at: "-", exp: "accept", cfg: set("/var/tmp/c17-props/out.txt")})
+		// the string shortcut names a file: an empty name violates the file sink's required path
+		w.add(gcase{kind: "oor", path: fpath + "#empty-file-name", at: "-", exp: "reject", cfg: set("")})
 	case schedIface:
 		w.add(gcase{kind: "plugin-short", path: fpath, at: "-", exp: "accept", cfg: set([]any{map[string]any{"type": "once", "times": 2}})})
+		w.add(gcase{kind: "plugin-short", path: fpath, at: "-", exp: "accept",
+			cfg: set([]any{map[string]any{"type": "once", "times": 2}, map[string]any{"type": "const", "ops": 1, "duration": "1s"}})})
+		w.add(gcase{kind: "oor", path: fpath + "[1]/duration#min-time", at: "-", exp: "reject",
+			cfg: set([]any{map[string]any{"type": "once", "times": 2}, map[string]any{"type": "const", "ops": 1, "duration": "1us"}})})
 		w.add(gcase{kind: "unknown", path: fpath + "[0]/zz_unknown", at: "-", exp: "reject", cfg: set([]any{map[string]any{"type": "once", "times": 2, "zz_unknown": 1}})})
 	}
 	// a block that names the plugin and nothing else: the plugin's default config is decoded from an empty mapping and
@@ -820,7 +853,7 @@ func (c gcase) line() string {
 		vars := map[string]string{}
 		for _, m := range []map[string]string{envTable, c.env} {
 			for k, v := range m {
-				if strings.Contains(cfgText, k+"}") {
+				if strings.Contains(cfgText, k) {
 					vars[k] = v
 				}
 			}
@@ -828,7 +861,7 @@ func (c gcase) line() string {
 		var files []propFileT
 		seen := map[string]bool{}
 		for _, f := range append([]propFileT{stdProps}, c.files...) {
-			if strings.Contains(cfgText, f.path+"#") && !seen[f.path] {
+			if strings.Contains(cfgText, f.path) && !seen[f.path] {
 				seen[f.path] = true
 				files = append(files, f)
 			}
@@ -1106,8 +1139,26 @@ func genCases(r *rand.Rand, tier string) []string {
 		}
 		if tier == "thorough" {
 			nc *= 60
+			if nc < 1200 {
+				nc = 1200
+			}
 		}
 		out = append(out, combos(r, w.out, nc)...)
+		// random valid configurations of this root, every position of each mutated once
+		nr, depth := 1, 2
+		switch {
+		case root == "cli" && tier == "thorough":
+			nr, depth = 400, 3
+		case root == "cli":
+			nr, depth = 8, 3
+		case root == "synth" && tier == "thorough":
+			nr = 300
+		case tier == "thorough":
+			nr = 120
+		}
+		for _, c := range randomConfigCases(r, root, nr, depth, true) {
+			out = append(out, c.line())
+		}
 	}
 	out = append(out, cliCases(r, tier)...)
 	return out
